@@ -1253,6 +1253,9 @@ func (g *gen) emit(name string) string {
 	// before it followed by X, so that "the buffer never regrows" (C17) is a statement about the code's own capacity
 	capBody := ""
 	for i, s := range fd.Body.List {
+		if strings.HasSuffix(name, "_ok") {
+			break // a no-panic twin (tools/okgen): its capacity is that of the function it shadows
+		}
 		as, ok := s.(*ast.AssignStmt)
 		if !ok || len(as.Rhs) != 1 {
 			continue
@@ -1347,11 +1350,18 @@ func main() {
 		for _, n := range names {
 			files = append(files, p.Files[n])
 		}
-		conf := types.Config{Importer: importer.ForCompiler(fset, "source", nil)}
+		// "soft" type errors (an unused variable or import) do not change what the code means: the generated no-panic twins
+		// (tools/okgen) have such leftovers. Every other type error is fatal.
+		var hard []error
+		conf := types.Config{Importer: importer.ForCompiler(fset, "source", nil), Error: func(err error) {
+			if te, ok := err.(types.Error); !ok || !te.Soft {
+				hard = append(hard, err)
+			}
+		}}
 		info := &types.Info{Types: map[ast.Expr]types.TypeAndValue{}, Defs: map[*ast.Ident]types.Object{}, Uses: map[*ast.Ident]types.Object{}, Selections: map[*ast.SelectorExpr]*types.Selection{}}
-		pkg, err := conf.Check(p.Name, fset, files, info)
-		if err != nil {
-			panic(err)
+		pkg, _ := conf.Check(p.Name, fset, files, info)
+		if len(hard) > 0 || pkg == nil {
+			panic(fmt.Sprint("type errors: ", hard))
 		}
 		// builtins and predeclared names are recognised by name below: nothing in the package may redefine one
 		for id, obj := range info.Defs {
@@ -1600,6 +1610,54 @@ func stateFacts(fset *token.FileSet, files []*ast.File, info *types.Info, pkg *t
 			vars = append(vars, n+":"+v.Type().String())
 		}
 	}
+	// sync.Pool variables: what `New` makes (the parser model takes "any buffer of that many slots" as the result of Get)
+	var poolNew, poolUses []string
+	isPool := func(name string) bool {
+		v, ok := pkg.Scope().Lookup(name).(*types.Var)
+		return ok && v.Type().String() == "sync.Pool"
+	}
+	for _, f := range files {
+		for _, d := range f.Decls {
+			gd, ok := d.(*ast.GenDecl)
+			if !ok || gd.Tok != token.VAR {
+				continue
+			}
+			for _, sp := range gd.Specs {
+				vs := sp.(*ast.ValueSpec)
+				for i, n := range vs.Names {
+					if !isPool(n.Name) {
+						continue
+					}
+					desc := n.Name + ":New=?"
+					if i < len(vs.Values) {
+						if cl, ok := vs.Values[i].(*ast.CompositeLit); ok {
+							for _, el := range cl.Elts {
+								kv, ok := el.(*ast.KeyValueExpr)
+								if !ok {
+									continue
+								}
+								if k, ok := kv.Key.(*ast.Ident); !ok || k.Name != "New" {
+									continue
+								}
+								if fl, ok := kv.Value.(*ast.FuncLit); ok && len(fl.Body.List) == 1 {
+									if rs, ok := fl.Body.List[0].(*ast.ReturnStmt); ok && len(rs.Results) == 1 {
+										if call, ok := rs.Results[0].(*ast.CallExpr); ok && len(call.Args) == 2 {
+											if id, ok := call.Fun.(*ast.Ident); ok && id.Name == "make" {
+												if tv, ok := info.Types[call.Args[1]]; ok && tv.Value != nil {
+													desc = fmt.Sprintf("%s:New=make(%s, %s)", n.Name, info.Types[call.Args[0]].Type.String(), tv.Value.ExactString())
+												}
+											}
+										}
+									}
+								}
+							}
+						}
+					}
+					poolNew = append(poolNew, desc)
+				}
+			}
+		}
+	}
 	for _, f := range files {
 		for _, d := range f.Decls {
 			fd, ok := d.(*ast.FuncDecl)
@@ -1616,6 +1674,64 @@ func stateFacts(fset *token.FileSet, files []*ast.File, info *types.Info, pkg *t
 					fn = id.Name + "." + fn
 				}
 			}
+			// pool dataflow: which variable receives Get's result and what is handed to Put (variables named canonically)
+			gotVars := map[types.Object]string{}
+			poolCall := func(e ast.Expr) (pool, method string, call *ast.CallExpr) {
+				c, ok := e.(*ast.CallExpr)
+				if !ok {
+					return "", "", nil
+				}
+				sel, ok := c.Fun.(*ast.SelectorExpr)
+				if !ok {
+					return "", "", nil
+				}
+				id, ok := sel.X.(*ast.Ident)
+				if !ok || !isPool(id.Name) {
+					return "", "", nil
+				}
+				if o, ok := info.Uses[id].(*types.Var); !ok || o.Parent() != pkg.Scope() {
+					return "", "", nil
+				}
+				return id.Name, sel.Sel.Name, c
+			}
+			putArg := func(c *ast.CallExpr) string {
+				if len(c.Args) == 1 {
+					if id, ok := c.Args[0].(*ast.Ident); ok {
+						if nm, ok := gotVars[info.Uses[id]]; ok {
+							return nm
+						}
+					}
+					return "expr " + types.ExprString(c.Args[0])
+				}
+				return "?"
+			}
+			ast.Inspect(fd.Body, func(n ast.Node) bool {
+				switch x := n.(type) {
+				case *ast.AssignStmt:
+					if len(x.Lhs) == 1 && len(x.Rhs) == 1 {
+						if pl, m, _ := poolCall(x.Rhs[0]); m == "Get" {
+							nm := fmt.Sprintf("v%d", len(gotVars))
+							if id, ok := x.Lhs[0].(*ast.Ident); ok {
+								if o := info.Defs[id]; o != nil {
+									gotVars[o] = nm
+								} else if o := info.Uses[id]; o != nil {
+									gotVars[o] = nm
+								}
+							}
+							poolUses = append(poolUses, fmt.Sprintf("%s:%s := %s.Get()", fn, nm, pl))
+						}
+					}
+				case *ast.DeferStmt:
+					if pl, m, c := poolCall(x.Call); m == "Put" {
+						poolUses = append(poolUses, fmt.Sprintf("%s:defer %s.Put(%s)", fn, pl, putArg(c)))
+					}
+				case *ast.ExprStmt:
+					if pl, m, c := poolCall(x.X); m == "Put" {
+						poolUses = append(poolUses, fmt.Sprintf("%s:%s.Put(%s)", fn, pl, putArg(c)))
+					}
+				}
+				return true
+			})
 			ast.Inspect(fd.Body, func(n ast.Node) bool {
 				switch x := n.(type) {
 				case *ast.AssignStmt:
@@ -1710,14 +1826,111 @@ func stateFacts(fset *token.FileSet, files []*ast.File, info *types.Info, pkg *t
 			}
 		}
 	}
+	// what each pointer-receiver method can do to its receiver (syntactic): assign through it, take an address inside it,
+	// hand the pointer to someone else, call another pointer-receiver method on it
+	var ptrEffects []string
+	isPtrMethod := func(name string) bool {
+		for _, m := range ptrm {
+			if m == name {
+				return true
+			}
+		}
+		return false
+	}
+	for _, f := range files {
+		for _, d := range f.Decls {
+			fd, ok := d.(*ast.FuncDecl)
+			if !ok || fd.Body == nil || fd.Recv == nil || len(fd.Recv.List[0].Names) == 0 {
+				continue
+			}
+			st, isPtr := fd.Recv.List[0].Type.(*ast.StarExpr)
+			if !isPtr {
+				continue
+			}
+			if id, ok := st.X.(*ast.Ident); !ok || !strings.HasPrefix(id.Name, "CVSS") {
+				continue
+			}
+			robj := info.Defs[fd.Recv.List[0].Names[0]]
+			var rooted func(e ast.Expr) bool
+			rooted = func(e ast.Expr) bool {
+				switch x := e.(type) {
+				case *ast.Ident:
+					return info.Uses[x] == robj && robj != nil
+				case *ast.ParenExpr:
+					return rooted(x.X)
+				case *ast.SelectorExpr:
+					return rooted(x.X)
+				case *ast.StarExpr:
+					return rooted(x.X)
+				case *ast.IndexExpr:
+					return rooted(x.X)
+				}
+				return false
+			}
+			eff := map[string]bool{}
+			ast.Inspect(fd.Body, func(n ast.Node) bool {
+				switch x := n.(type) {
+				case *ast.AssignStmt:
+					for _, l := range x.Lhs {
+						if rooted(l) {
+							eff["writes"] = true
+						}
+					}
+					for _, r := range x.Rhs {
+						if id, ok := stripParens(r).(*ast.Ident); ok && rooted(id) {
+							eff["aliases"] = true
+						}
+					}
+				case *ast.IncDecStmt:
+					if rooted(x.X) {
+						eff["writes"] = true
+					}
+				case *ast.UnaryExpr:
+					if x.Op == token.AND && rooted(x.X) {
+						eff["takes-address"] = true
+					}
+				case *ast.CallExpr:
+					for _, a := range x.Args {
+						if id, ok := stripParens(a).(*ast.Ident); ok && rooted(id) {
+							eff["passes-pointer"] = true
+						}
+					}
+					if sel, ok := x.Fun.(*ast.SelectorExpr); ok {
+						if id, ok := stripParens(sel.X).(*ast.Ident); ok && rooted(id) && isPtrMethod(sel.Sel.Name) {
+							eff["calls:"+sel.Sel.Name] = true
+						}
+					}
+				case *ast.ReturnStmt:
+					for _, r := range x.Results {
+						if id, ok := stripParens(r).(*ast.Ident); ok && rooted(id) {
+							eff["returns-pointer"] = true
+						}
+					}
+				}
+				return true
+			})
+			var es []string
+			for e := range eff {
+				es = append(es, e)
+			}
+			sort.Strings(es)
+			if len(es) == 0 {
+				es = []string{"reads-only"}
+			}
+			ptrEffects = append(ptrEffects, fd.Name.Name+":"+strings.Join(es, ","))
+		}
+	}
 	return []string{
 		"/-- fields of the object type (name:type), in declaration order -/\ndef obj_fields : List String :=\n  " + lstRaw(ofields) + "\n",
 		"/-- methods of the object type with a pointer receiver (the only ones that can change the object) -/\ndef obj_ptr_methods : List String :=\n  " + lst(ptrm) + "\n",
+		"/-- what each pointer-receiver method does with its receiver: writes / takes-address / passes-pointer / aliases / returns-pointer / calls:M, or reads-only -/\ndef obj_ptr_effects : List String :=\n  " + lst(ptrEffects) + "\n",
 		"/-- `init` functions of the package (file:init) -/\ndef pkg_inits : List String :=\n  " + lst(inits) + "\n",
 		"/-- build constraints on non-test source files other than the verification hooks (file:constraint) -/\ndef pkg_build_tags : List String :=\n  " + lst(tags) + "\n",
 		"/-- package-level variables (name:type) -/\ndef pkg_vars : List String :=\n  " + lst(vars) + "\n",
 		"/-- function:variable for every assignment to (or address-of) a package-level variable inside a function body -/\ndef pkg_writes : List String :=\n  " + lst(writes) + "\n",
 		"/-- function:variable.method for every method call on a package-level variable; function:go for goroutine starts -/\ndef pkg_calls : List String :=\n  " + lst(calls) + "\n",
+		"/-- sync.Pool variables and what their `New` makes -/\ndef pool_new : List String :=\n  " + lst(poolNew) + "\n",
+		"/-- every Get (with the canonical name of the variable that receives it) and Put (with what is handed back), in source order -/\ndef pool_uses : List String :=\n  " + lstRaw(poolUses) + "\n",
 		"/-- function:unsafe.X for every use of package unsafe -/\ndef pkg_unsafe : List String :=\n  " + lst(unsafes) + "\n",
 	}
 }
